@@ -289,6 +289,7 @@ impl ForkServer {
         err: &Path,
         log: &Path,
         cap: Duration,
+        tmpdir: Option<&Path>,
     ) -> Result<Ending, String> {
         use std::io::Write;
         let mut msg = String::new();
@@ -305,6 +306,9 @@ impl ForkServer {
         msg.push_str(&format!("LOG {}\nOUT {}\nERR {}\nCWD {}\n", log.display(), out.display(), err.display(), cwd.display()));
         for (k, v) in colour.env() {
             msg.push_str(&format!("ENV {k}={v}\n"));
+        }
+        if let Some(tmp) = tmpdir {
+            msg.push_str(&format!("ENV TMPDIR={}\n", tmp.display()));
         }
         for (i, a) in args.iter().enumerate() {
             if a.contains('\n') {
@@ -370,7 +374,8 @@ pub fn launch_forked(
             forks.len() - 1
         }
     };
-    let ending = match forks[idx].launch(args, cwd, colour, plan, &out_path, &err_path, &log_path, env.cap) {
+    let tmpdir = scratch.join("tmp");
+    let ending = match forks[idx].launch(args, cwd, colour, plan, &out_path, &err_path, &log_path, env.cap, Some(&tmpdir)) {
         Ok(e) => e,
         Err(e) => {
             // a server that lost protocol sync is not reused
@@ -416,6 +421,10 @@ pub fn launch_program(
     for (k, v) in colour.env() {
         cmd.env(k, v);
     }
+    // Durable state between launches: a temporary directory that belongs to the group, so that
+    // what one launch leaves behind is there for the next launch of the same group (as on a real
+    // machine) and for nobody else (so that the history is replayable).
+    cmd.env("TMPDIR", scratch.join("tmp"));
     cmd.env("LD_PRELOAD", &env.shim);
     cmd.env("GRAMSIM_KEY", plan.key_hex());
     cmd.env("GRAMSIM_LOG", &log_path);
